@@ -67,27 +67,43 @@ def clause1_pop(ctx, P):
             bad = None
             cnt = 0
             for v in views:
-                pos = [k for k, i in v.insts() if i.id == rm.id]
-                if not pos:
+                if rm.block not in v.blocks:
                     continue
-                # success class on this path?
-                st = [x for x in (_is_success_atom(P, a, p, rm.id, succ) for (a, p) in v.atoms) if x is not None]
-                if not st or not st[-1]:
-                    continue
-                cnt += 1
-                done = False
-                for k, i in v.insts():
-                    if k > pos[0] and _frees_request(P, f, i):
-                        done = True
-                    if k > pos[0] and i.id == rm.id:
-                        break  # next loop iteration pops another entry
-                if not done:
+                # walk the path: a pop becomes 'pending' when the success edge of the removal is taken and must be
+                # completed before the next pop or the end of the path
+                pending = False
+                for (b, a, p) in v.path:
+                    if a is not None:
+                        sres = _is_success_atom(P, a, p, rm.id, succ)
+                        if sres is True:
+                            if pending:
+                                bad = v
+                            pending = True
+                            cnt += 1
+                    for i in f.blocks[b]:
+                        if pending and _frees_request(P, f, i):
+                            pending = False
+                if pending:
                     bad = v
+                if bad is not None:
                     break
             ctx.ob("C03.1 R-OWN", f, Q.ordinal_site(f, rm, P), bad is None and cnt > 0,
                    "a routing entry is removed from the table and then neither completed nor freed on this path: the caller never "
                    "gets the owner's answer (only a timeout), and the outcome depends on a third peer's disconnect" if bad else
                    "popped entry is completed on all %d success path(s)" % cnt, witness=bad.witness() if bad else None)
+    # the caller-gone sweep touches only entries of the leaving peer
+    sw = P.fn("router.c:remove_peer_from_routing_table")
+    for c in sw.calls(("hashtable_remove_route_table", "clear_routing_entry")):
+        def leaver(atom, pol):
+            if atom[0] != "cmp":
+                return False
+            for (x, y) in ((atom[2], atom[3]), (atom[3], atom[2])):
+                if Q.is_field_load(x, "struct.routing_request", "requesting_peer") is not None and y[0] == "param" and y[1] == 1:
+                    return Q._poleq(atom, pol)
+            return False
+        ctx.ob("C03.1 R-GATE", sw, Q.ordinal_site(sw, c, P) + ":only-leaver", Q.must_pass(P, sw, c.block, leaver),
+               "when a peer leaves, %s is applied to routing entries of OTHER callers as well: a third peer's disconnect decides the "
+               "outcome of their requests" % P.srcname_of(c.callee))
     if n < 3:
         raise AnalysisBroken("expected >= 3 value-yielding removals from the routing table, found %d" % n)
     ctx.floor("C03.1 R-OWN", 3)
